@@ -170,7 +170,7 @@ def parse_lxml(data):
         return None
 
     def walk(el, scope):
-        cur = {k: v for k, v in el.nsmap.items() if k != "xml"}
+        cur = {k: v for k, v in el.nsmap.items() if k != "xml" and v}
         kids = []
         if el.text:
             kids.append(el.text)
